@@ -90,7 +90,16 @@ func c03Inbox(sc *sim.Scenario, actor string) string {
 // activity other than Create: notes, but also activities, intransitive
 // activities (which have bto/bcc and no 'object' of their own), actors.
 func embeddedObjectValue(g *prng.R, i int) M {
-	switch g.Intn(9) {
+	switch g.Intn(12) {
+	case 9:
+		// a type the vocabularies do not define (an extension type): its
+		// members, bto / bcc among them, are kept as they are
+		return M{"type": pick(g, "schema:Recipe", "ChatMessage", "EmojiReact"), "id": fmt.Sprintf("%s/things/x%d", L, i), "name": "soup"}
+	case 10:
+		return M{"id": fmt.Sprintf("%s/things/typeless%d", L, i), "name": "no type at all"}
+	case 11:
+		// a Link has no bto / bcc property of its own: still members
+		return M{"type": pick(g, "Link", "Mention"), "href": R1 + "/users/linked", "name": "@linked"}
 	case 0:
 		return M{"type": "Like", "id": fmt.Sprintf("%s/act/emb%d", L, i), "actor": alice(), "object": R1 + "/notes/liked"}
 	case 1:
@@ -381,9 +390,11 @@ func genHandlerCase(g *prng.R) c03Case {
 		n++
 		m := M{"type": all[g.Intn(len(all))], "id": fmt.Sprintf("%s/things/%d", L, n)}
 		intransitive := m["type"] == "Arrive" || m["type"] == "Travel" || m["type"] == "Question" || m["type"] == "IntransitiveActivity"
-		if intransitive && d < depth {
-			m["type"] = "Announce" // only a type with 'object' can carry the next level
+		if intransitive && d < depth && g.Chance(2, 3) {
+			m["type"] = "Announce" // a type with an 'object' property carries the next level
 		}
+		// (else: the 'object' member of a Question / Arrive / Travel is not a
+		// property of theirs, but it is an 'object' member all the same)
 		genAddressing(m, pool, g, 0)
 		if d < depth {
 			objs := A{build(d + 1)}
@@ -394,8 +405,13 @@ func genHandlerCase(g *prng.R) c03Case {
 			// in the list, the first place included
 			if g.Chance(1, 4) {
 				var extra interface{} = R1 + "/notes/first"
-				if g.Bool() {
+				switch g.Intn(4) {
+				case 0:
 					extra = M{"type": "Mention", "href": R1 + "/users/mentioned", "name": "@m"}
+				case 1:
+					extra = M{"type": "Mention", "href": R1 + "/users/mentioned", "name": "@m", "bto": pool[0], "bcc": A{pool[1]}}
+				case 2:
+					extra = M{"type": "schema:Recipe", "id": L + "/things/recipe", "bcc": A{pool[0]}, "object": M{"type": "Note", "id": L + "/things/inner", "bto": pool[1]}}
 				}
 				at := g.Intn(len(objs) + 1)
 				objs = append(objs[:at:at], append(A{extra}, objs[at:]...)...)
